@@ -249,6 +249,14 @@ def install_vec(I: Interp):
     M[("Vec", "all")] = lambda I, v, a, k, n: all(I.truth(x, n) for x in v.items)
     M[("Vec", "item")] = lambda I, v, a, k, n: v.items[0]
 
+    def _vsum(I, v, n):
+        acc = v.items[0]
+        for x in v.items[1:]:
+            acc = I.binop(_ast.Add(), acc, x, n)
+        return acc
+    M[("Vec", "sum")] = lambda I, v, a, k, n: _vsum(I, v, n)
+    M[("Vec", "mean")] = lambda I, v, a, k, n: I.binop(_ast.Div(), _vsum(I, v, n), zero(I) + len(v.items) if False else (Num.const(len(v.items)) if not getattr(I, "sympy_mode", False) else __import__("sympy").Integer(len(v.items))), n)
+
     def _isclose(I, a, k, n):
         """tolerance comparison: an independent unknown per element pair (the tolerance decides, not the ordering)"""
         from .absint import UnknownBool
@@ -303,6 +311,12 @@ def install_vec(I: Interp):
             return Num.atom(f"{I.describe(v)}[{idx.canon()}]")
         if isinstance(idx, Vec):
             return Vec([vgetitem(I, v, [j], {}, n) for j in idx.items])
+        if isinstance(idx, tuple) and len(idx) == 2 and all(isinstance(r, Vec) for r in v.items):
+            # two-dimensional indexing of a vector of rows: [rows, column]
+            rows = vgetitem(I, v, [idx[0]], {}, n)
+            rows = rows if isinstance(rows, Vec) and all(isinstance(r, Vec) for r in rows.items) else Vec([rows])
+            picked = [vgetitem(I, r, [idx[1]], {}, n) for r in rows.items]
+            return Vec(picked) if isinstance(idx[0], slice) else picked[0]
         I.err(n, f"Vec[{idx!r}]")
     M[("Vec", "__getitem__")] = vgetitem
 
@@ -361,6 +375,21 @@ def install_vec(I: Interp):
     E["numpy.subtract"] = lambda I, a, k, n: I.binop(_ast.Sub(), a[0], a[1], n)
     E["numpy.multiply"] = lambda I, a, k, n: I.binop(_ast.Mult(), a[0], a[1], n)
     E["numpy.divide"] = lambda I, a, k, n: I.binop(_ast.Div(), a[0], a[1], n)
+
+    def _elementwise(name, fsym):
+        def f(I, a, k, n):
+            import sympy as sp
+            def one(x):
+                if getattr(I, "sympy_mode", False):
+                    from .absint import num_to_sym
+                    return fsym(sp)(num_to_sym(x))
+                return Num.atom(f"{name}({I.describe(x)})")
+            v = a[0]
+            return Vec([one(x) for x in v.items]) if isinstance(v, Vec) else one(v)
+        return f
+    E["numpy.sign"] = _elementwise("sign", lambda sp: sp.sign)
+    E["numpy.abs"] = _elementwise("abs", lambda sp: sp.Abs)
+    E["numpy.absolute"] = E["numpy.abs"]
 
     def flatnonzero(I, a, k, n):
         v = a[0]
